@@ -18,7 +18,8 @@ clean() { git -C $WT checkout -q -- . ; git -C $WT clean -fdq -e out; }
 clean
 PKG=""
 if [ -f $SRC/demo_test.go ]; then
-  PKG=$(grep -m1 -oE '(pkg|cmd)/[A-Za-z0-9_/]+' $SRC/demo_test.go | sed 's#/$##; s#/demo_test.go##')
+  PKG=$(head -5 $SRC/demo_test.go | grep -m1 -oE '^// *dir: *[A-Za-z0-9_/.]+' | sed 's#^// *dir: *##; s#/$##')
+  [ -n "$PKG" ] || PKG=$(grep -m1 -oE '(pkg|cmd)/[A-Za-z0-9_/]+' $SRC/demo_test.go | sed 's#/$##; s#/demo_test.go##')
   [ -d "$WT/$PKG" ] || PKG=$(dirname "$PKG")
   if grep -q '^package main' $SRC/demo_test.go; then PKG="."; fi
 fi
